@@ -6,4 +6,7 @@ MUTANTS = [
     # the two hangs repaired by ed16019 / 46f6496, put back
     ("paren-matcher-no-guard", "vsg/vhdlFile/utils.py", "        if not is_item(lObjects, iCurrent):\n            # Nothing left to classify, the closing parenthesis is missing\n            return iCurrent\n", ""),
     ("physical-units-no-guard", "vsg/vhdlFile/classify/physical_type_definition.py", "        if iLast == iCurrent:\n            # Not a secondary unit declaration, the end of the units is missing\n            break\n", ""),
+    # the two comma loops repaired by 5f82277, put back
+    ("instantiation-list-rereads-start", "vsg/vhdlFile/classify/instantiation_list.py", "        iCurrent = utils.assign_next_token_required(\",\", token.comma, iCurrent, lObjects)\n        iCurrent = utils.assign_next_token(token.instantiation_label, iCurrent, lObjects)", "        iCurrent = utils.assign_next_token_required(\",\", token.comma, iToken, lObjects)\n        iCurrent = utils.assign_next_token(token.instantiation_label, iToken, lObjects)"),
+    ("entity-name-list-rereads-start", "vsg/vhdlFile/classify/entity_name_list.py", "            iCurrent = utils.assign_next_token_required(\",\", token.comma, iCurrent, lObjects)", "            iCurrent = utils.assign_next_token_required(\",\", token.comma, iToken, lObjects)"),
 ]
